@@ -36,7 +36,13 @@ GapSet(ts, ns, hsa) == {a \in 0..(hsa - 1) : InGap(ts, ns, hsa, a)}
 
 NoView == [in_ring |-> FALSE, ready |-> FALSE, las |-> <<>>, ns |-> -1, ps |-> -1]
 NoTx == [by |-> -1, t0 |-> 0, t1 |-> 0, b |-> <<0>>, app |-> FALSE]
-NoGrant == [from |-> -1, ps |-> -1, inring |-> FALSE, offers |-> 0, pending |-> FALSE]
+NoGrant == [froms |-> {}, just |-> FALSE, inring |-> FALSE, pending |-> FALSE]
+(* offers made to station d since it last acted: an acceptance is justified if SOME pending offer justifies it *)
+Offer(rs, d, from) ==
+  LET g == rs.grant[d]
+      j == from = rs.pub[d].ps \/ from \in rs.offered[d]
+  IN IF g.pending THEN [froms |-> g.froms \cup {from}, just |-> g.just \/ j, inring |-> g.inring \/ rs.pub[d].in_ring, pending |-> TRUE]
+     ELSE [froms |-> {from}, just |-> j, inring |-> rs.pub[d].in_ring, pending |-> TRUE]
 NoVisit == [open |-> FALSE, claim |-> FALSE, gappolls |-> 0, appreqs |-> 0, tok2 |-> FALSE]
 NoPass == [by |-> -1, to |-> -1, n |-> 0]
 NoWatch == [by |-> -1, to |-> -1, heard |-> FALSE]
@@ -56,7 +62,7 @@ RuleInit(cfg) ==
    since |-> [s \in St |-> 0], online |-> {},
    pub |-> [s \in St |-> NoView], pre |-> [s \in St |-> NoView],
    grant |-> [s \in St |-> NoGrant],
-   offered |-> [s \in St |-> {}], rogue |-> FALSE,
+   offered |-> [s \in St |-> {}], rogue |-> FALSE, unread |-> 0,
    pas |-> NoPass,
    visit |-> [s \in St |-> NoVisit],
    recvPrev |-> [s \in St |-> -1], recvCur |-> [s \in St |-> -1],
@@ -82,7 +88,7 @@ Agree(rs, s) ==
   /\ v.in_ring /\ ToSet(v.las) = on
   /\ (Cardinality(on) > 1 => (v.ns = Succ(on, s) /\ v.ps = Pred(on, s)))
 AllAgree(rs) == rs.online # {} /\ \A s \in rs.online : Agree(rs, s)
-ConvActive(rs) == IF rs.cfg.mode = "single" THEN FALSE ELSE IF FaultMode(rs.cfg) THEN rs.faultsEnd # -1 ELSE TRUE
+ConvActive(rs) == IF rs.cfg.mode \in {"single", "claim"} THEN FALSE ELSE IF FaultMode(rs.cfg) THEN rs.faultsEnd # -1 ELSE TRUE
 (* recovered / converged: all views agree and the last 2N tokens went round in address order *)
 TryReach(rs, t) ==
   IF ~rs.reached /\ ConvActive(rs) /\ AllAgree(rs) /\ rs.goodTokens >= 2 * Cardinality(rs.online)
@@ -150,10 +156,12 @@ OnTx(rs, e) ==
       g == rs.grant[s]
       \* taking the token shows in an initiating telegram (token, request); answering an earlier
       \* request is not an acceptance
-      accepting == cls = "Holder" /\ g.pending /\ ~rs.rogue /\ ~IsResp(b)
+      \* (single-station runs: telegrams still unread in the PHY buffer when the station acts mean that
+      \* wire order and processing order differ - not judged)
+      accepting == cls = "Holder" /\ g.pending /\ ~rs.rogue /\ rs.unread = 0 /\ ~IsResp(b)
       \* the predecessor registered when the offer was made or when it was taken (the view may
       \* change inside the accepting poll through telegrams handled before the token)
-      c11a == << <<"C11.accept", accepting => (g.inring /\ (g.from = g.ps \/ g.from = rs.pub[s].ps \/ g.offers >= 2))>> >>
+      c11a == << <<"C11.accept", accepting => (g.inring /\ (g.just \/ rs.pub[s].ps \in g.froms))>> >>
       (* ---- token specifics *)
       d == IF k = "token" THEN Da(b) ELSE -1
       passOn == k = "token" /\ d # s
@@ -162,7 +170,7 @@ OnTx(rs, e) ==
       gd == IF d \in St THEN rs.grant[d] ELSE NoGrant
       c11t == <<
         <<"C11.max3", retry => rs.pas.n + 1 <= 3>>,
-        <<"C11.immediate", (retry /\ ~single /\ d \in St /\ d \in rs.online) => ~(gd.from = gd.ps /\ gd.inring /\ gd.from = s)>>,
+        <<"C11.immediate", (retry /\ ~single /\ d \in St /\ d \in rs.online) => ~(gd.pending /\ gd.just /\ gd.inring /\ gd.froms = {s} /\ s = rs.pub[d].ps)>>,
         <<"C11.drop", (moveOn /\ rs.pas.by = s) => rs.pas.to \notin ToSet(rs.pub[s].las)>>,
         <<"C12.successor", (passOn /\ ~single /\ rs.expectSucc[s] # -1) => rs.expectSucc[s] = d>>,
         <<"C02.order", (passOn /\ rs.reached /\ ~FaultMode(cfg) /\ s \in rs.online) => d = Succ(rs.online, s)>>,
@@ -202,7 +210,8 @@ OnTx(rs, e) ==
               \o (IF judged /\ appreq /\ v.open /\ v.appreqs >= 1 /\ rs.recvPrev[s] # -1 THEN <<"C13.hold">> ELSE <<>>)
               \o (IF judged /\ sresp THEN <<"C12.reply.state">> ELSE <<>>)
       (* ---- state update *)
-      rs1 == [rs EXCEPT !.last = [by |-> s, t0 |-> e.t0, t1 |-> e.t1, b |-> b, app |-> rs.appsent[s]]]
+      rs1 == [rs EXCEPT !.last = [by |-> s, t0 |-> e.t0, t1 |-> e.t1, b |-> b, app |-> rs.appsent[s]],
+                        !.rogue = @ \/ rs.unread > 0]
       \* heard watch: any transmission by someone else within tsl after a pass
       rs2 == IF rs.hw.by # -1 /\ rs.hw.by # s /\ gap < cfg.tsl /\ ~rs.hw.heard THEN [rs1 EXCEPT !.hw.heard = TRUE] ELSE rs1
       rs3 == IF cls = "Holder" /\ g.pending /\ ~IsResp(b) THEN [rs2 EXCEPT !.grant[s].pending = FALSE, !.offered[s] = {}] ELSE rs2
@@ -215,13 +224,10 @@ OnTx(rs, e) ==
                            ELSE LET keep == v.open /\ v.claim /\ v.gappolls = 0 /\ ~v.tok2 IN
                                 [NewVisit(cnt, s, keep, keep, e.t1) EXCEPT !.holder = s])
                      ELSE LET pas1 == IF retry THEN [rs.pas EXCEPT !.n = @ + 1] ELSE [by |-> s, to |-> d, n |-> 1]
-                              a == [cnt EXCEPT !.rogue = FALSE, !.pas = pas1, !.expectSucc[s] = -1, !.hw = [by |-> s, to |-> d, heard |-> FALSE],
+                              a == [cnt EXCEPT !.rogue = (rs.unread > 0), !.pas = pas1, !.expectSucc[s] = -1, !.hw = [by |-> s, to |-> d, heard |-> FALSE],
                                                !.holder = d, !.visit[s].open = FALSE]
                           IN IF d \in St
-                             THEN LET off == IF s \in rs.offered[d] THEN 2 ELSE 1 IN
-                                  NewVisit([a EXCEPT !.offered[d] = @ \cup {s},
-                                                     !.grant[d] = [from |-> s, ps |-> rs.pub[d].ps, inring |-> rs.pub[d].in_ring,
-                                                                   offers |-> off, pending |-> TRUE]], d, FALSE, FALSE, e.t1)
+                             THEN NewVisit([a EXCEPT !.offered[d] = @ \cup {s}, !.grant[d] = Offer(rs, d, s)], d, FALSE, FALSE, e.t1)
                              ELSE a
       rs6 == IF gappoll THEN [rs5 EXCEPT !.visit[s].gappolls = @ + 1, !.cadPolled[s] = @ \cup {Da(b)}]
              ELSE IF appreq THEN [rs5 EXCEPT !.visit[s].appreqs = @ + 1]
@@ -244,7 +250,8 @@ OnEnvTx(rs, e) ==
       \* a peer that transmits while a station under test holds the token (and is not answering
       \* it) leaves the protocol: holder tracking from the wire is unreliable until that station
       \* passes the token on
-      rogue == rs.rogue \/ (rs.holder \in St /\ ~isReply)
+      \* (a token offered again to a station that has not acted on the previous offer is a retry, not rogue)
+      rogue == rs.rogue \/ (rs.holder \in St /\ ~isReply /\ ~rs.grant[rs.holder].pending)
       rs1 == [rs EXCEPT !.last = [by |-> e.st, t0 |-> e.t0, t1 |-> e.t1, b |-> b, app |-> FALSE], !.rogue = rogue,
                         !.goodTokens = 0,
                         !.hw = IF @.by # -1 /\ gap < rs.cfg.tsl /\ ~@.heard THEN [@ EXCEPT !.heard = TRUE] ELSE @]
@@ -252,10 +259,8 @@ OnEnvTx(rs, e) ==
              ELSE LET d == Da(b) sa == Sa(b)
                       w == RotWitness(rs1, sa, d, e.t0)
                   IN IF d \in St
-                     THEN LET off == IF sa \in rs.offered[d] THEN 2 ELSE 1 IN
-                          NewVisit([w EXCEPT !.holder = d, !.lastTokDa = d, !.offered[d] = @ \cup {sa},
-                                             !.grant[d] = [from |-> sa, ps |-> rs.pub[d].ps, inring |-> rs.pub[d].in_ring,
-                                                           offers |-> off, pending |-> TRUE]], d, FALSE, FALSE, e.t1)
+                     THEN NewVisit([w EXCEPT !.holder = d, !.lastTokDa = d, !.offered[d] = @ \cup {sa}, !.grant[d] = Offer(rs, d, sa)],
+                                   d, FALSE, FALSE, e.t1)
                      ELSE [w EXCEPT !.holder = d, !.lastTokDa = d]
       sresp == k = "data" /\ ~IsReq(b) /\ last.by \in St /\ IsStatusReq(last.b) /\ ~last.app
       rs3 == IF sresp /\ RespState(b) \in {2, 3} /\ RespStatus(b) = 0 /\ Da(b) = last.by /\ Sa(b) = Da(last.b)
@@ -274,6 +279,7 @@ OnPoll(rs, e) ==
       readyOk == becomesReady => (r.claimed \/ r.ok \/ claimable)
       cadOk == ~rs.cadBad
       rs1 == [rs EXCEPT !.pub[s] = e.post, !.pre[s] = e.pre, !.appsent[s] = FALSE,
+                        !.unread = IF "unread" \in DOMAIN e THEN e.unread ELSE 0,
                         !.hw = IF hwme THEN NoWatch ELSE @]
       wasReached == rs.reached
       nowAgree == AllAgree(rs1)
